@@ -338,9 +338,10 @@ func runC07(r *vf.Runner) {
 		run(c)
 	}
 	// damage: exhaustive bit flips and truncations of small streams
-	schemas := []int{1, 0}
+	// 13: every column has a lenient custom codec, so nothing but the checksum guards the batch length
+	schemas := []int{1, 0, 13}
 	if !r.Quick() {
-		schemas = []int{1, 0, 2, 3, 4, 8, 5}
+		schemas = []int{1, 0, 13, 2, 3, 4, 8, 5}
 	}
 	for _, si := range schemas {
 		for _, ds := range [][]int{{1}, {3}, {8}} {
